@@ -54,6 +54,19 @@ def check(run):
     conts = [f['name'] for f in rec['fields'] if any(t in f['ty'] for t in ('deque', 'vector', 'list', 'map', 'set', 'queue')) and f['name'] != 'm_queue']
     run.check(not conts, 'R2k', 'single-container', Q, '', 'queue has additional packet containers %s that can bypass the FIFO' % conts, 'm_queue is the only container')
 
+    run.clause('R3 nothing bypasses the container: inside the queue only the sender (next_packet_sent) puts a packet back on the route')
+    fwd = {}
+    for fn in fx.repo_functions():
+        if q.top_function(fx, fn).cls == Q:
+            for c in fn.calls():
+                if q.callee_name(c) == 'sim::forward_packet':
+                    fwd.setdefault(q.top_function(fx, fn).norm, (fn, c))
+    for w, (fn, c) in sorted(fwd.items()):
+        run.check(w == ns.norm, 'R3', 'no-bypass', 'forward_packet <- ' + w, fn.loc(c),
+                  '%s forwards a packet directly, bypassing m_queue: it overtakes everything queued before it and crosses the hop without latency or serialisation time' % w, 'the only forwarder is the sender')
+    if ns.norm not in fwd:
+        run.broke('queue::next_packet_sent no longer forwards')
+
     run.clause('R10 queue-sender: empty->non-empty starts the sender; every departure continues while packets remain; every path of begin_send ends armed')
     pushes = [c for c in ip.calls() if (c.get('callee') or '').split('::')[-1] == 'emplace_back' and q.render(ip, c.get('obj')) == 'm_queue']
     starts = [c for c in ip.calls() if c.get('usr') == bs.usr]
